@@ -75,6 +75,8 @@ type JobResult struct {
 	Stopped      bool                  `json:"stopped_after_violations"`
 	SolverErrors []string              `json:"solver_errors"`
 	Samples      []Sample              `json:"samples"`
+	DistinctNotes int                  `json:"distinct_notes"`
+	noteSet      map[string]bool
 	Wall         float64               `json:"wall_s"`
 	CPU          float64               `json:"cpu_s"`
 	Transcripts  []Transcript          `json:"-"`
@@ -360,6 +362,12 @@ func (e *Explorer) runPath(m *Machine, it workItem) {
 			jr.Violations = append(jr.Violations, v)
 		}
 	}
+	for _, n := range m.notes {
+		if len(jr.noteSet) < 20000 && !jr.noteSet[n] {
+			jr.noteSet[n] = true
+			jr.DistinctNotes++
+		}
+	}
 	if len(jr.Samples) < 3 || (m.symOblig > 0 && len(jr.Samples) < 6) {
 		jr.Samples = append(jr.Samples, Sample{Path: idx, Prefix: append([]int{}, m.taken...), Notes: append([]string{}, m.notes...), NDraws: len(m.draws), Oblig: m.symOblig})
 	}
@@ -404,7 +412,7 @@ func runJobs(prog *ssa.Program, pkgs map[string]*ssa.Package, jobs []Job, worker
 			j.Opt.InitExclude = []string{"github.com/parsyl/parquet/schema"}
 		}
 		jr := &JobResult{Name: j.Name, Pkg: j.Pkg, Func: j.Func, Args: j.Args, job: j, fn: fn,
-			Labels: map[string]*labelStat{}, Unsupported: map[string]int{}, Funcs: map[string]int{}, Reach: map[string]int{}, started: time.Now()}
+			noteSet: map[string]bool{}, Labels: map[string]*labelStat{}, Unsupported: map[string]int{}, Funcs: map[string]int{}, Reach: map[string]int{}, started: time.Now()}
 		if in := p.Func("init"); in != nil {
 			jr.inits = append(jr.inits, in)
 		}
